@@ -205,15 +205,19 @@ where
         if state == &self.current_state {
             return;
         }
-        match self.paused_animation.as_ref() {
-            Some((paused_state, paused_position)) if state == paused_state => {
-                self.state_duration = *paused_position;
+        // The remembered animation is forgotten as soon as it is resumed or any other animated state
+        // is entered; it only survives transitions between states that have no timeline.
+        match self.paused_animation.take() {
+            Some((paused_state, paused_position)) if state == &paused_state => {
+                self.state_duration = paused_position;
             }
-            _ => {
+            paused_animation => {
                 let was_animating = self.timelines.get(&self.current_state).is_some();
                 let will_animate = self.timelines.get(state).is_some();
                 if was_animating && !will_animate {
                     self.paused_animation = Some((self.current_state.clone(), self.state_duration));
+                } else if !will_animate {
+                    self.paused_animation = paused_animation;
                 }
                 self.blend_next_timeline(state);
                 self.state_duration = Duration::ZERO;
